@@ -158,6 +158,7 @@ pub struct SessionResult {
     pub hook_events: Vec<(u64, String, String)>,
     pub shows: Vec<(bool, Vec<String>)>,
     pub stdout: Vec<String>,
+    pub slow: Vec<String>,
 }
 
 struct Model {
@@ -167,6 +168,8 @@ struct Model {
     faults: Vec<(String, String)>,
     silences: Vec<(String, String)>,
     infinite: bool,
+    /// depth-limited searches that outlived the watchdog but ended on `stop`
+    slow: Vec<String>,
 }
 
 fn is_move_token(t: &str) -> bool {
@@ -281,7 +284,21 @@ impl Runner {
         if self.model.outstanding.is_none() {
             return true;
         }
-        let ok = self.pump_until(timeout, |m, _| m.outstanding.is_none());
+        let mut ok = self.pump_until(timeout, |m, _| m.outstanding.is_none());
+        if !ok && why != "wait" && !self.sess.out_eof {
+            // a search limited by depth only may simply be slow (a depth-4 search of a tactical
+            // middlegame was measured at 92 s): its silence proves nothing. If the engine still
+            // obeys `stop`, the session goes on and the case is counted, not reported.
+            let cmd = self.model.outstanding.map(|i| self.model.gos[i].cmd.clone()).unwrap_or_default();
+            let depth_only = cmd.starts_with("go depth") && !["movetime", "wtime", "btime", "infinite"].iter().any(|t| cmd.contains(t));
+            if depth_only {
+                self.sess.send("stop");
+                ok = self.pump_until(self.watchdog, |m, _| m.outstanding.is_none());
+                if ok {
+                    self.model.slow.push(cmd);
+                }
+            }
+        }
         if !ok {
             let cmd = self.model.outstanding.map(|i| self.model.gos[i].cmd.clone()).unwrap_or_default();
             self.model.silences.push(("no-bestmove".into(), format!("no bestmove for {cmd:?} within {timeout:?} ({why})")));
@@ -318,13 +335,13 @@ pub fn run_script(script: &Script, tag: &str, watchdog: Duration) -> SessionResu
         Err(e) => {
             return SessionResult {
                 gos: vec![], faults: vec![], silences: vec![("spawn".into(), format!("cannot start {}: {e}", bin.display()))],
-                transcript: vec![], exit_code: None, points_hit: vec![], hook_events: vec![], shows: vec![], stdout: vec![],
+                transcript: vec![], exit_code: None, points_hit: vec![], hook_events: vec![], shows: vec![], stdout: vec![], slow: vec![],
             }
         }
     };
     let mut r = Runner {
         sess,
-        model: Model { pos: None, outstanding: None, gos: vec![], faults: vec![], silences: vec![], infinite: false },
+        model: Model { pos: None, outstanding: None, gos: vec![], faults: vec![], silences: vec![], infinite: false, slow: vec![] },
         watchdog,
     };
     let mut exit_code = None;
@@ -550,5 +567,5 @@ pub fn run_script(script: &Script, tag: &str, watchdog: Duration) -> SessionResu
     if !r.model.silences.is_empty() {
         r.sess.kill();
     }
-    SessionResult { gos: r.model.gos, faults: r.model.faults, silences: r.model.silences, transcript, exit_code, points_hit, hook_events, shows, stdout }
+    SessionResult { gos: r.model.gos, faults: r.model.faults, silences: r.model.silences, transcript, exit_code, points_hit, hook_events, shows, stdout, slow: r.model.slow }
 }
